@@ -148,7 +148,36 @@ func loadProg(repo string, cfg BuildConfig, modules []string) (*Prog, error) {
 			p.ModPkgs[sp] = true
 		}
 	}
-	for fn := range ssautil.AllFunctions(sprog) {
+	all := ssautil.AllFunctions(sprog)
+	// methods of generic named types are reachable through no method set, so
+	// AllFunctions misses them unless module code instantiates the type: add the
+	// declared (origin) methods of every named type of the module packages
+	var addFn func(fn *ssa.Function)
+	addFn = func(fn *ssa.Function) {
+		if fn == nil || all[fn] {
+			return
+		}
+		all[fn] = true
+		for _, a := range fn.AnonFuncs {
+			addFn(a)
+		}
+	}
+	for sp := range p.ModPkgs {
+		for _, mem := range sp.Members {
+			tm, ok := mem.(*ssa.Type)
+			if !ok {
+				continue
+			}
+			named, ok := tm.Type().(*types.Named)
+			if !ok || named.TypeParams().Len() == 0 {
+				continue
+			}
+			for i := 0; i < named.NumMethods(); i++ {
+				addFn(sprog.FuncValue(named.Method(i)))
+			}
+		}
+	}
+	for fn := range all {
 		if fn.Blocks == nil || fn.Synthetic != "" {
 			continue
 		}
